@@ -681,6 +681,78 @@ fn typed_routes_grid(report: &mut Report) -> (u64, u64, u64) {
     (n, ran, rejected)
 }
 
+/// An assignment is an expression: what `c = v` / `c op= v` yields is typed, and that type holds
+/// the value yielded (the stored content) - for cells whose declared content type is wider than
+/// the operand's. Every (cell type, content, operator, operand) x every use of the assignment's
+/// value where its static type matters: as the program's value, stored into a cell declared with
+/// the operand's type, given to `mut`, returned from a function declared with the operand's type,
+/// passed as an argument. Accepted and run => the value is in the program's static type and every
+/// cell reachable from it holds a member of its declared type.
+fn assignment_value_grid(report: &mut Report) -> (u64, u64) {
+    use crate::ty::cells_well_typed;
+    use simplesl::variable::ReturnType;
+    // (cell content type, initial content, [(operator, operand, operand's own type)])
+    const CASES: &[(&str, &str, &[(&str, &str, &str)])] = &[
+        ("[int|float]", "[2.5]", &[("+=", "[1]", "[int]"), ("+=", "[]", "[int]"), ("=", "[1]", "[int]"), ("+=", "[1][1:]", "[int]")]),
+        ("[any]", "[\"s\"]", &[("+=", "[1]", "[int]"), ("=", "[1]", "[int]"), ("+=", "[]", "[string]")]),
+        ("int|float", "2.5", &[("=", "1", "int"), ("=", "2.5", "float")]),
+        ("any", "\"s\"", &[("=", "1", "int"), ("=", "[1]", "[int]")]),
+        ("[int]|string", "\"s\"", &[("=", "[1]", "[int]"), ("=", "\"t\"", "string")]),
+        ("[int]", "[1]", &[("+=", "[2]", "[int]"), ("+=", "[]", "[int]"), ("=", "[]", "[int]")]),
+        ("string", "\"a\"", &[("+=", "\"b\"", "string")]),
+        ("int", "5", &[("+=", "1", "int"), ("<<=", "1", "int"), ("%=", "3", "int"), ("/=", "2", "int")]),
+        ("float", "1.5", &[("*=", "2.0", "float"), ("/=", "0.0", "float")]),
+    ];
+    const USES: &[(&str, &str)] = &[
+        ("program value", "c := mut CT INIT; c OP RHS"),
+        ("bound then yielded", "c := mut CT INIT; r := (c OP RHS); r"),
+        ("stored into a cell of the operand's type", "c := mut CT INIT; e := mut RT RHS; e = (c OP RHS); e"),
+        ("given to mut", "c := mut CT INIT; m := mut (c OP RHS); m"),
+        ("returned from a function of the operand's type", "f := () -> RT { c := mut CT INIT; return c OP RHS }; f()"),
+        ("passed for a parameter of the operand's type", "g := (p: RT) -> RT { return p }; c := mut CT INIT; g(c OP RHS)"),
+        ("element of an array stored in a cell", "c := mut CT INIT; e := mut [RT] [RHS]; e = [c OP RHS]; e"),
+        ("through a parameter cell", "f := (c: mut PCT) -> any { e := mut RT RHS; e = (c OP RHS); return e }; f(mut CT INIT)"),
+    ];
+    let interp = Interpreter::with_stdlib();
+    let (mut n, mut ran) = (0u64, 0u64);
+    for (ct, init, ops) in CASES {
+        for (op, rhs, rt) in ops.iter() {
+            for (uname, utext) in USES {
+                n += 1;
+                let pct = if ct.contains('|') && !ct.starts_with('[') { format!("({ct})") } else { ct.to_string() };
+                let text = utext.replace("PCT", &pct).replace("CT", ct).replace("INIT", init).replace("OP", op).replace("RHS", rhs).replace("RT", rt);
+                let code = match guard(|| Code::parse(&interp, &text)) {
+                    Ok(Ok(c)) => c,
+                    Ok(Err(_)) => continue,
+                    Err(_) => {
+                        report.violation(Violation { sig: format!("C13|assignment-value|parse-panics|{uname}"), detail: json!({"kind": "program", "stdlib": true, "text": text}) });
+                        continue;
+                    }
+                };
+                let Ok(sty) = guard(|| code.return_type()) else { continue };
+                let v = match guard(|| code.exec()) {
+                    Ok(Ok(v)) => v,
+                    Ok(Err(_)) => continue,
+                    Err(_) => {
+                        report.violation(Violation { sig: format!("C13|assignment-value|run-panics|{uname}|cell={}|{op}", ct.replace('|', "/")), detail: json!({"kind": "program", "stdlib": true, "text": text}) });
+                        continue;
+                    }
+                };
+                ran += 1;
+                let in_static = belongs(&v, &Ty::from_impl(&sty));
+                let cells_ok = cells_well_typed(&v);
+                if !in_static || !cells_ok {
+                    report.violation(Violation {
+                        sig: format!("C13|assignment-value|{}|{uname}|cell={}|{op} {}", if cells_ok { "value-outside-static-type" } else { "cell-content-outside-declared-type" }, ct.replace('|', "/"), rt.replace('|', "/")),
+                        detail: json!({"kind": "program", "stdlib": true, "text": text, "static_type": Ty::from_impl(&sty).print(), "value": crate::val::canon_typed(&v), "expected": "the value of an assignment is in its static type; every cell holds a member of its declared type"}),
+                    });
+                }
+            }
+        }
+    }
+    (n, ran)
+}
+
 /// runs the loom harnesses that share a cell (`loomcheck C13 <tier>`) and turns their verdicts into C13 violations
 fn concurrent_updates(tier: &str, report: &mut Report) -> Result<(u64, u64), String> {
     let bin = crate::report::verif_root().join("loomcheck/target/release/loomcheck");
@@ -915,6 +987,7 @@ pub fn run(tier: &str) -> i32 {
     let (static_n, static_accepted) = core::on_big_stack(|| static_side(&mut report));
     let n_scenarios = core::on_big_stack(|| scenarios(&mut report));
     let typed_routes = core::on_big_stack(|| typed_routes_grid(&mut report));
+    let assignment_values = core::on_big_stack(|| assignment_value_grid(&mut report));
     // second model: the aliasing graph changes (re-binding, fresh copies, tuples, destructuring, capture)
     let (dynamic, dyn_violations) = crate::props::c13dyn::explore(if thorough { 6 } else { 4 });
     report.violations(dyn_violations);
@@ -941,6 +1014,7 @@ pub fn run(tier: &str) -> i32 {
         "ill_typed_actions_rejected_as_expected": shared.rejected_as_expected.load(Ordering::Relaxed),
         "failing_updates_with_expected_error_and_unchanged_cell": shared.errors_as_expected.load(Ordering::Relaxed),
         "aliasing_scenarios": n_scenarios,
+        "assignment_value_grid (cell type x content x operator x operand x use of the assignment's value)": {"programs": assignment_values.0, "accepted_and_ran": assignment_values.1},
         "typed_routes (23 routes by which a cell reaches a store position x 11 (cell type, position type) pairs)": {"programs": typed_routes.0, "ran_to_the_end": typed_routes.1, "rejected_by_the_checker": typed_routes.2},
         "cells_made_from_parameters_and_captures": n_closure_cells,
         "compound_store_cases (c op= v against the binary operator's own answer, by contents, float sign and type tag; failing updates leave the cell)": n_compound,
